@@ -3,21 +3,21 @@
 (patch.diff, the demonstration, meta.json) from /tmp/seedkeep/<Pid>/ and the log of seedtest.sh."""
 import sys, os, shutil, json, re
 pid, i, name, needs, what = sys.argv[1:6]
-src = '/tmp/seedkeep/%s' % pid
+src = '%s/%s' % (os.environ.get('SEEDKEEP_SRC', '/tmp/seedkeep'), pid)
 dst = os.path.join(os.path.dirname(os.path.abspath(__file__)), 'seeded', name)
 os.makedirs(dst, exist_ok=True)
 shutil.copyfile('%s/change%s.diff' % (src, i), dst + '/patch.diff')
 shutil.copyfile('%s/demo%s_test.go' % (src, i), dst + '/demo_test.go')
-log = open('/tmp/seedres/%s-%s.log' % (pid, i)).read()
+log = open('%s/%s-%s.log' % (os.environ.get('SEEDKEEP_LOG', '/tmp/seedres'), pid, i)).read()
 viol = re.findall(r'^VIOLATION.*$', log, re.M)
 summ = re.findall(r'^property=.*$', log, re.M)
 detail = [l.strip() for l in re.findall(r'^  .*$', log, re.M)][-3:]
 meta = {
  'property': pid, 'what': what, 'needs_to_manifest': needs,
  'demonstration': 'demo_test.go: copy into pkg/provider/ (package provider_test), run `go test -vet=off -count=1 -run TestDemo%s ./pkg/provider/`; fails with patch.diff applied, passes without' % i,
- 'confirmed_by': 'seedtest.sh %s /tmp/seedkeep/%s %s: scratch worktree of /repo HEAD; demo passes without the patch; demo fails with it; `go build ./... && go test -vet=off -count=1 ./...` passes with it; then `VERIF_REPO=<worktree> ./check %s quick`' % (pid, pid, i, pid),
+ 'confirmed_by': 'seedtest.sh %s <seed-out-dir>/%s %s: scratch worktree of /repo HEAD; demo passes without the patch; demo fails with it; `go build ./... && go test -vet=off -count=1 ./...` passes with it; then `VERIF_REPO=<worktree> ./check %s quick`' % (pid, pid, i, pid),
  'existing_suite_with_patch': 'passes' if not re.search(r'^(FAIL|---)', log.split('existing suite WITH the change')[1].split('== checks')[0], re.M) else 'FAILS',
- 'check_summary': summ, 'check_detail': detail,
+ 'checks_run': re.findall(r'^property=(C\d+)', log, re.M), 'check_summary': summ, 'check_detail': detail,
  'detected': bool(viol), 'violation_lines': viol,
  'detected_how': ('monitor on the implementation trace: concrete failing history' if viol and 'no-failing-input-found' not in viol[-1] else ('correspondence (model and code disagree), no failing input found' if viol else 'NOT DETECTED')),
 }
